@@ -4,6 +4,7 @@ import (
 	"bytes"
 	"fmt"
 	"io"
+	"os"
 	"sort"
 	"strconv"
 	"strings"
@@ -573,6 +574,18 @@ func optsGen(g *G, tier string) []M {
 				a = M{"t": "replace", "k": 1.0, "cell": []any{[]any{"Backend", "b1"}}, "shp": true}
 				b = M{"t": "replace", "k": 1.0, "cell": []any{[]any{"Backend", "b2"}}}
 			}
+			if g.Chance(0.5) {
+				// the second struct says what the library's defaults say: it is still what was asked for
+				if isWriter {
+					if asInt(b["k"]) == 0 {
+						b["cell"] = []any{[]any{"Indent", "4"}}
+					} else {
+						b["cell"] = []any{[]any{"NoClobber", "false"}, []any{"Backend", ""}}
+					}
+				} else {
+					b["cell"] = []any{[]any{"Backend", ""}}
+				}
+			}
 			steps = []any{M{"s": "new", "settings": []any{a}}, M{"s": "new", "settings": []any{a, b}}, M{"s": "new", "settings": []any{b, a}}, M{"s": "new", "settings": []any{a}}}
 		}
 		ops = append(ops, M{"op": "optsHist", "kind": kind, "defaults": dfl, "steps": steps})
@@ -675,6 +688,41 @@ func oracleOpts(op M, res any, exec func(M) any) []Finding {
 			for i := range ca {
 				if i < len(cb) && i != int(asInt(sm["i"])) && !Equal(ca[i], cb[i]) {
 					out = append(out, Finding{"C18", fmt.Sprintf("configuring instance %d (step %d) changed instance %d: %s -> %s", int(asInt(sm["i"])), si, i, js(ca[i]), js(cb[i]))})
+				}
+			}
+		}
+	}
+	// an instance has what its constructor options say: of several options of one kind the last
+	// decides, whatever the values are (also when they are what the library's defaults say)
+	for si := 0; si < len(steps) && si < len(rl); si++ {
+		sm, _ := steps[si].(M)
+		b, _ := rl[si].(M)
+		if sm == nil || b == nil || asStr(sm["s"]) != "new" {
+			continue
+		}
+		cfgs := asList(Normalize(b["cfgs"]))
+		if len(cfgs) == 0 {
+			continue
+		}
+		inst, _ := cfgs[len(cfgs)-1].(M)
+		cells := asList(inst["cells"])
+		last := map[int][]any{}
+		for _, x := range asList(sm["settings"]) {
+			if xm, ok := x.(M); ok && asStr(xm["t"]) == "replace" {
+				last[int(asInt(xm["k"]))] = asList(xm["cell"])
+			}
+		}
+		for k, cell := range last {
+			if k >= len(cells) {
+				continue
+			}
+			for _, kv := range cell {
+				p := asList(kv)
+				if len(p) != 2 {
+					continue
+				}
+				if got := cellGet(cells[k], asStr(p[0]), "<absent>"); got != asStr(p[1]) {
+					out = append(out, Finding{"C18", fmt.Sprintf("step %d: the last option of its kind given to the constructor says %s=%s, the instance has %s", si, asStr(p[0]), asStr(p[1]), got)})
 				}
 			}
 		}
@@ -1117,6 +1165,24 @@ func execOptionSlices(isWriter bool) any {
 			if _, err := rA.ParseStreamWithOptions(strings.NewReader("ok"), shared); err != nil || got != "options-of-A" {
 				bad("the first reader, called again, handed its driver %v (error %v)", got, err)
 			}
+		}
+		// the file entry point takes the options of the call as the stream entry point does
+		if f, err := os.CreateTemp("", "verif-opts-*.txt"); err == nil {
+			_, _ = f.WriteString("ok")
+			_ = f.Close()
+			co := &reader.Options{Format: "verif/failrec"}
+			co.SetFormatOptions(key, "options-of-the-call")
+			got = nil
+			if _, err := rA.ParseFileWithOptions(f.Name(), co); err != nil {
+				bad("ParseFileWithOptions with the format stated by the call fails: %v", err)
+			} else if got != "options-of-the-call" {
+				bad("ParseFileWithOptions handed the driver %v, the options of the call say options-of-the-call", got)
+			}
+			got = nil
+			if _, err := rA.ParseStreamWithOptions(strings.NewReader("ok"), co); err != nil || got != "options-of-the-call" {
+				bad("ParseStreamWithOptions handed the driver %v (error %v), the options of the call say options-of-the-call", got, err)
+			}
+			_ = os.Remove(f.Name())
 		}
 		rC.Options.Format = ""
 		if v := rC.Options.GetFormatOptions(key); v != nil {
